@@ -73,13 +73,18 @@ var mutatingStdlib = map[string]bool{
 	"golang.org/x/exp/maps.Copy": true,
 }
 
+type retKey struct {
+	f   *ssa.Function
+	idx int
+}
+
 type analysis struct {
 	prog       *ssa.Program
 	modelTypes map[string]bool // names of model struct types (origin names)
 	inScope    map[*ssa.Package]bool
 	methodsBy  map[string][]*ssa.Function // method name -> concrete methods of in-scope types
 	goTargets  map[*ssa.Function]bool
-	retModel   map[*ssa.Function]*rootInfo // memo: the function returns memory of the model (a getter handing out a slice / map of the model uncopied)
+	retModel   map[retKey]*rootInfo // memo: the function returns memory of the model (a getter handing out a slice / map of the model uncopied)
 }
 
 func hasPrefix(name string, ps []string) bool {
@@ -238,6 +243,9 @@ func (a *analysis) root(v ssa.Value, depth int) rootInfo {
 	case *ssa.TypeAssert:
 		return a.root(x.X, depth+1)
 	case *ssa.Extract:
+		if c, ok := x.Tuple.(*ssa.Call); ok {
+			return a.callResultRoot(c, x.Index, x.Type(), depth)
+		}
 		return a.root(x.Tuple, depth+1)
 	case *ssa.Phi:
 		best := rootInfo{kind: rkLocal, desc: "phi"}
@@ -252,40 +260,55 @@ func (a *analysis) root(v ssa.Value, depth int) rootInfo {
 		}
 		return best
 	case *ssa.Call:
-		// a value returned by a call is local UNLESS the callee (of the two packages) returns memory
-		// of the model itself: Message.Signals() returns the layout's slice, set.entries() the map,
-		// GetSignalGroup the group's slice ...  Interface calls: any implementation that does.
-		if x.Call.IsInvoke() {
-			if it, ok := x.Call.Value.Type().Underlying().(*types.Interface); ok {
-				for _, g := range a.methodsBy[x.Call.Method.Name()] {
-					recv := g.Signature.Recv().Type()
-					if types.Implements(recv, it) || types.Implements(types.NewPointer(recv), it) {
-						if r := a.returnsModel(g, depth+1); r != nil {
-							return *r
-						}
-					}
-				}
-			}
-		} else if f := x.Call.StaticCallee(); f != nil {
-			if r := a.returnsModel(f, depth+1); r != nil {
-				return *r
-			}
-		}
-		return rootInfo{kind: rkLocal, desc: "call result"}
+		return a.callResultRoot(x, 0, x.Type(), depth)
 	}
 	return rootInfo{kind: rkLocal, desc: fmt.Sprintf("%T", v)}
 }
 
+// callResultRoot: a value returned by a call is local UNLESS it is reference-like at the call site
+// (slice / map / pointer, also when the callee is generic and returns a type parameter: set.getValue
+// instantiated with V = []int) and the callee (of the two packages) returns memory of the model itself:
+// Message.Signals() returns the layout's slice, set.entries() the map, set.getValue(k) the stored slice,
+// GetSignalGroup the group's slice ...  Interface calls: any implementation that does.
+func (a *analysis) callResultRoot(x *ssa.Call, idx int, t types.Type, depth int) rootInfo {
+	local := rootInfo{kind: rkLocal, desc: "call result"}
+	if _, isTypeParam := types.Unalias(t).(*types.TypeParam); !isTypeParam { // inside an instantiation wrapper the result still has the type parameter
+		switch t.Underlying().(type) {
+		case *types.Slice, *types.Map:
+		default:
+			return local
+		}
+	}
+	if x.Call.IsInvoke() {
+		if it, ok := x.Call.Value.Type().Underlying().(*types.Interface); ok {
+			for _, g := range a.methodsBy[x.Call.Method.Name()] {
+				recv := g.Signature.Recv().Type()
+				if types.Implements(recv, it) || types.Implements(types.NewPointer(recv), it) {
+					if r := a.returnsModel(g, idx, depth+1); r != nil {
+						return *r
+					}
+				}
+			}
+		}
+	} else if f := x.Call.StaticCallee(); f != nil {
+		if r := a.returnsModel(f, idx, depth+1); r != nil {
+			return *r
+		}
+	}
+	return local
+}
+
 // returnsModel: does f (a function of the two packages) return a slice / map / pointer-to-element that
 // designates memory of the model (not a copy)?  Only reference-like results count.
-func (a *analysis) returnsModel(f *ssa.Function, depth int) *rootInfo {
+func (a *analysis) returnsModel(f *ssa.Function, idx int, depth int) *rootInfo {
 	if f.Origin() != nil && len(f.Blocks) == 0 {
 		f = f.Origin()
 	}
-	if r, ok := a.retModel[f]; ok {
+	key := retKey{f, idx}
+	if r, ok := a.retModel[key]; ok {
 		return r
 	}
-	a.retModel[f] = nil // recursion guard
+	a.retModel[key] = nil // recursion guard
 	if depth > 30 || len(f.Blocks) == 0 {
 		return nil
 	}
@@ -294,6 +317,8 @@ func (a *analysis) returnsModel(f *ssa.Function, depth int) *rootInfo {
 		inScope = true
 	} else if f.Object() != nil && f.Object().Pkg() != nil && strings.HasPrefix(f.Object().Pkg().Path(), pkgPath) {
 		inScope = true
+	} else if o := f.Origin(); o != nil && o.Pkg != nil && a.inScope[o.Pkg] {
+		inScope = true // instantiation wrapper of a generic function of the two packages
 	}
 	if !inScope {
 		return nil
@@ -304,18 +329,20 @@ func (a *analysis) returnsModel(f *ssa.Function, depth int) *rootInfo {
 			if !ok {
 				continue
 			}
-			for _, v := range ret.Results {
-				switch v.Type().Underlying().(type) {
-				case *types.Slice, *types.Map:
-				default:
-					continue
-				}
-				if r := a.root(v, depth+1); r.kind == rkModel || r.kind == rkGlobal {
-					rr := r
-					rr.desc = r.desc + " (returned by " + fnName(f) + ")"
-					a.retModel[f] = &rr
-					return &rr
-				}
+			if idx >= len(ret.Results) {
+				continue
+			}
+			v := ret.Results[idx]
+			switch v.Type().Underlying().(type) {
+			case *types.Slice, *types.Map, *types.Interface: // Interface: the constraint of a type parameter
+			default:
+				continue
+			}
+			if r := a.root(v, depth+1); r.kind == rkModel || r.kind == rkGlobal {
+				rr := r
+				rr.desc = r.desc + " (returned by " + fnName(f) + ")"
+				a.retModel[key] = &rr
+				return &rr
 			}
 		}
 	}
@@ -548,7 +575,7 @@ func main() {
 	prog, spkgs := ssautil.AllPackages(pkgs, ssa.BuilderMode(0))
 	prog.Build()
 	a := &analysis{prog: prog, modelTypes: map[string]bool{}, inScope: map[*ssa.Package]bool{},
-		methodsBy: map[string][]*ssa.Function{}, goTargets: map[*ssa.Function]bool{}, retModel: map[*ssa.Function]*rootInfo{}}
+		methodsBy: map[string][]*ssa.Function{}, goTargets: map[*ssa.Function]bool{}, retModel: map[retKey]*rootInfo{}}
 	var main *ssa.Package
 	for i, p := range spkgs {
 		if p == nil {
